@@ -343,7 +343,22 @@ def guarded_inside(stmt_ast, use_node, vid):
             t = null_test(anc['inner'][0])
             if t[0] == vid and ((anc['inner'][1] is nxt and t[2]) or (anc['inner'][2] is nxt and not t[2])):
                 return True
+            # `v && more ? v->x : y`: every conjunct of the condition holds in the true arm; `!v || more ? y : v->x`: every disjunct fails in the false arm
+            if anc['inner'][1] is nxt or anc['inner'][2] is nxt:
+                op, sense = ('&&', True) if anc['inner'][1] is nxt else ('||', False)
+                for side in _operands(anc['inner'][0], op):
+                    t = null_test(side)
+                    if t[0] == vid and t[2] == sense:
+                        return True
     return False
+
+
+def _operands(e, op):
+    """the operands of a (possibly nested, parenthesised) chain of `op`"""
+    e = unwrap(e)
+    if e.get('kind') == 'BinaryOperator' and e.get('opcode') == op:
+        return _operands(e['inner'][0], op) + _operands(e['inner'][1], op)
+    return [e]
 
 
 def find_path(root, target):
